@@ -154,6 +154,9 @@ Proof.
   apply keeps_bind; [apply keeps_write_hex|]. apply keeps_bind; [apply keeps_byte|exact IH].
 Qed.
 
+Lemma keeps_fill k : keeps (fill_spaces k).
+Proof. induction k as [|k IH]; cbn [fill_spaces]; [apply keeps_ok|]. apply keeps_bind; [apply keeps_byte|exact IH]. Qed.
+
 Lemma keeps_dec_then_byte b : keeps (fun l => append_byte (dec_index l) b).
 Proof. intros l l' W E. eapply (keeps_byte b (dec_index l)); [exact W|exact E]. Qed.
 
@@ -222,7 +225,7 @@ Proof.
   - intros l l' W E. unfold f_byte_array in E.
     set (rem := (Z.of_nat BUFSZ - Z.of_nat (index l) - 1 - Z.of_nat (List.length name) - 2)%Z) in *.
     destruct ((rem <=? Z.of_nat (List.length v) * 3)%Z) eqn:T; cbn [andb] in E.
-    + destruct (rem <? 10)%Z; [injection E as <-; exact W|].
+    + destruct (rem <=? 10)%Z; [injection E as <-; exact W|].
       destruct (Z.quot (rem - 10) 3 <? 0)%Z; [discriminate|].
       set (l0 := mkLine (write_at (buf l) (BUFSZ - 10) TRUNCATED) (index l)) in *.
       assert (W0 : wf l0).
@@ -232,12 +235,13 @@ Proof.
       destruct (copy_in l2 [61; 91]) as [l3| | |] eqn:E3; cbn [bind] in E; try discriminate.
       destruct (ba_loop _ l3) as [l4| | |] eqn:E4; cbn [bind] in E; try discriminate.
       destruct (append_byte _ 93) as [l5| | |] eqn:E5; cbn [bind] in E; try discriminate.
+      destruct (fill_spaces _ l5) as [l6| | |] eqn:E6; cbn [bind] in E; try discriminate.
       injection E as <-. unfold wf. cbn [buf].
       pose proof (keeps_byte 32 l0 l1 W0 E1) as W1. pose proof (keeps_copy name l1 l2 W1 E2) as W2.
       pose proof (keeps_copy _ l2 l3 W2 E3) as W3. pose proof (keeps_ba_loop _ l3 l4 W3 E4) as W4.
       assert (W5 : wf l5).
       { destruct (firstn _ v); [eapply (keeps_byte 93 l4)|eapply (keeps_byte 93 (dec_index l4))]; eassumption. }
-      exact W5.
+      exact (keeps_fill _ l5 l6 W5 E6).
     + replace (mkLine (buf l) (index l)) with l in E by (destruct l; reflexivity).
       destruct (append_byte l 32) as [l1| | |] eqn:E1; cbn [bind] in E; try discriminate.
       destruct (copy_in l1 name) as [l2| | |] eqn:E2; cbn [bind] in E; try discriminate.
